@@ -1083,7 +1083,17 @@ def m_list_insert(ip, lst, i, x):
             raise Unsupported('insert(symbolic)')
         lst.items.insert(c, x)
         return None
-    raise Unsupported('insert on symbolic list')
+    # python clamps the position into [0, n] (negative positions count from the end)
+    n = lst.n
+    it = ops.term(i, 'int')
+    pos = z3.If(it < 0, z3.If(n + it < 0, z3.IntVal(0), n + it), z3.If(it > n, n, it))
+    xt = ip.unwrap(x, lst.elem)
+    j = z3.Int('j!ins')
+    a0 = lst.arr
+    lst.arr = z3.Lambda([j], z3.If(j < pos, z3.Select(a0, j), z3.If(j == pos, xt, z3.Select(a0, j - 1))))
+    lst.n = n + 1
+    lst.meas = {}
+    return None
 
 
 def m_list_index(ip, lst, x):
@@ -1346,10 +1356,35 @@ def m_str_zfill(ip, s, n):
     return OPAQUE_STR
 
 
-def m_str_strip(ip, s, chars=None):
-    if isinstance(s, str):
-        return s.strip(chars)
-    raise Unsupported('strip on symbolic string')
+def _strip_model(kind):
+    def f(ip, s, chars=None):
+        if isinstance(s, str) and (chars is None or isinstance(chars, str)):
+            return {'strip': s.strip, 'rstrip': s.rstrip, 'lstrip': s.lstrip}[kind](chars)
+        if isinstance(s, OpaqueStr):
+            return OPAQUE_STR
+        used(ip, 'str.%s: SOME string obtained by removing a (possibly empty) run of characters at the end(s)' % kind)
+        t = ops.term(s)
+        r = ip.ctx.fresh(kind + 'ped', StrSort)
+        pre = ip.ctx.fresh('pre', StrSort)
+        post = ip.ctx.fresh('post', StrSort)
+        ip.ctx.assume(t == z3.Concat(pre, r, post))
+        if kind == 'rstrip':
+            ip.ctx.assume(pre == z3.StringVal(''))
+        if kind == 'lstrip':
+            ip.ctx.assume(post == z3.StringVal(''))
+        if isinstance(chars, str) and len(chars) == 1:
+            c = z3.StringVal(chars)
+            ip.ctx.assume(z3.InRe(pre, z3.Star(z3.Re(c))))
+            ip.ctx.assume(z3.InRe(post, z3.Star(z3.Re(c))))
+            if kind in ('rstrip', 'strip'):
+                ip.ctx.assume(z3.Not(z3.SuffixOf(c, r)))
+            if kind in ('lstrip', 'strip'):
+                ip.ctx.assume(z3.Not(z3.PrefixOf(c, r)))
+        return Sym(r, 'str')
+    return f
+
+
+m_str_strip = _strip_model('strip')
 
 
 def m_bytes_hex(ip, b):
@@ -1360,7 +1395,8 @@ BYTES_METHODS = {'decode': m_bytes_decode, 'join': m_bytes_join, 'split': m_byte
                  'endswith': m_str_endswith, 'replace': m_str_replace, 'hex': m_bytes_hex}
 STR_METHODS = {'encode': m_str_encode, 'join': None, 'split': m_bytes_split, 'startswith': m_str_startswith,
                'endswith': m_str_endswith, 'replace': m_str_replace, 'upper': m_str_upper, 'lower': m_str_lower,
-               'format': m_str_format, 'zfill': m_str_zfill, 'strip': m_str_strip}
+               'format': m_str_format, 'zfill': m_str_zfill, 'strip': m_str_strip, 'rstrip': _strip_model('rstrip'),
+               'lstrip': _strip_model('lstrip')}
 STR_METHODS = {k: v for k, v in STR_METHODS.items() if v is not None}
 
 
